@@ -45,3 +45,7 @@ Definition isnilM {A} (p : outcome (option A)) : outcome bool :=
   fmap (fun o => match o with None => true | Some _ => false end) p.
 Definition derefM {A} (p : outcome (option A)) : outcome A :=
   bind p (fun o => match o with Some v => Ret v | None => Panic site_nil end).
+
+(* evaluate the monadic plumbing of a translated term *)
+Ltac gosem := cbv [orM andM eqM neqM notM prefixM suffixM containsM sliceM lenM subM addM leM ltM
+  isnilM derefM fmap ret goeq GoEq_bstr GoEq_Z GoEq_bool bind].
